@@ -440,7 +440,6 @@ class SctpClient(TcpClient,SctpConnection):
             tcp_client.debug(f"[Socket-{self.sock_id}] Connecting to the "\
                              f"Remote Peer")
             self.sock.connect((self.ip_address, self.port))
-            self.is_connected = True
 
             tcp_client.debug(f"[Socket-{self.sock_id}] Setting as "\
                              f"Non-Blocking")
@@ -449,6 +448,10 @@ class SctpClient(TcpClient,SctpConnection):
             tcp_client.debug(f"[Socket-{self.sock_id}] Registering Socket "\
                              f"Selector address: {self.selector.get_map()}")
             self.selector.register(self.sock, selectors.EVENT_READ | selectors.EVENT_WRITE)
+
+            #: Only now (as in TcpClient.start): the state machine thread uses
+            #: the selector registration as soon as it sees this flag.
+            self.is_connected = True
 
         except Exception as e:
             tcp_client.exception(f"client_errors: {e.args}")
